@@ -273,11 +273,12 @@ Proof.
     + destruct d as [a s|a tg raf vs].
       * apply shape_gen_scoped. exact Hbody.
       * destruct vs as [|v vs]; [intros H; inversion H; apply r_scoped_none, incl_nil_l|].
-        intros H. apply bind_ok in H as (l & Hl & H). inversion H. subst r.
+        intros H. apply bind_ok in H as (l & Hl & H).
         assert (Hall : incl (flat_map ftv l) V).
         { eapply (omap_list_scoped _ (src_variant n)); [| |exact Hl].
           - intros; eapply variant_gen_scoped; eassumption.
           - apply forallb_filter. exact Hbody. }
+        destruct l as [|x0 l0]; inversion H; subst r; [apply r_scoped_none, incl_nil_l|].
         split; cbn [fst snd ftv]; [exact Hall|]. intros x Hx; inversion Hx; subst. exact Hall.
 Qed.
 End Def.
